@@ -214,6 +214,8 @@ def o4(W, ob):
              'UdpProtocol::new does not fill peer_connect_status with num_players entries', where(n))
 
 
+from . import helpers
+
 OBLIGATIONS = [
     ('C08.O1', 'filters dominate handlers', 'every handler dispatch and the last_recv_time refresh sit behind the Shutdown test and the magic '
      'test; both sessions hand a message to an endpoint only through a lookup of its source address.', o1),
@@ -226,4 +228,5 @@ OBLIGATIONS = [
     ('C08.O4', 'no open panic site on the untrusted path', 'inventory of panic-capable sites over the closure of handle_message: each is '
      'discharged by analysis or listed with a reason; external callees are in the reviewed totality table; unsafe code is forbidden; the '
      'length invariants used are protected by writer checks.', o4),
+    ('C08.H', 'helpers the rules above rely on', 'the bodies of the helpers named by this property\'s rules compute what the rules assume (last_recv_frame); see rules/helpers.py', helpers.bundle('last_recv_frame')),
 ]
